@@ -117,6 +117,8 @@ class Space3(c01.Space):
                 # an undeclared item that abbreviates or extends a declared one is as undeclared as any other
                 it0 = r[1][0].upper()
                 for what, lit in (('prefix', '.%s.' % it0[:-1]), ('first-letter', '.%s.' % it0[:1]), ('extended', '.%sX.' % it0), ('prefix-of-last', '.%s.' % r[1][-1].upper()[:2])):
+                    if lit.strip('.').lower() in [x.lower() for x in r[1]]:
+                        continue            # (that abbreviation happens to be a declared item)
                     p = list(base)
                     p[k] = lit
                     yield case('undeclared-enum-item', tk + ':' + what, mk(p), k)
@@ -158,11 +160,25 @@ class Space3(c01.Space):
                 p = list(base)
                 p[k] = '#77'
                 yield case('dangling-reference', tk, mk(p), k)
+                for big in ('#4294967297', '#18446744073709551617'):
+                    p = list(base)
+                    p[k] = big
+                    yield case('dangling-reference', tk + ':wraps-to-an-existing-id', mk(p), k)
+                p = list(base)
+                p[k] = '#77'
+                # the same file appended to a session in which an instance #77 of the right type exists: the reference is as dangling as before
+                yield dict(case('dangling-reference', 'appended:' + tk, mk(p), k), append_after=self.file(['#77=%s;' % {'tgt': 'TGT(77)', 'tgt2': "TGT2('t77')", 'tgtsub': 'TGTSUB(77,78)'}.get(r[1], 'TGT(77)')]), mode='read')
                 wrong = {'tgt': '#3', 'tgt2': '#1', 'tgtsub': '#1'}.get(r[1])
                 if wrong:
                     p = list(base)
                     p[k] = wrong
                     yield case('reference-wrong-type', tk, mk(p), k)
+            if r[0] == 'select' and any(m in s.tmap()[1] for m in r[1]):
+                # a select with entity members: a dangling reference, alone and appended
+                p = list(base)
+                p[k] = '#77'
+                yield case('dangling-reference', 'select:' + tk, mk(p), k)
+                yield dict(case('dangling-reference', 'appended:select:' + tk, mk(p), k), append_after=self.file(["#77=TGT(77);", "#78=TGT2('t78');"]), mode='read')
             if r[0] == 'aggr':
                 er = s.resolve(r[1].elem)
                 if er[0] == 'entity':
@@ -171,6 +187,10 @@ class Space3(c01.Space):
                     p = list(base)
                     p[k] = '(%s)' % ','.join(['#77'] + [d] * (n - 1))
                     yield case('dangling-reference', tk, mk(p), k)
+                    for big in ('#4294967297', '#18446744073709551617'):      # 2^32 + 1, 2^64 + 1: equal to the existing #1 in a narrower integer
+                        p = list(base)
+                        p[k] = '(%s)' % ','.join([d] * (n - 1) + [big])
+                        yield case('dangling-reference', tk + ':wraps-to-an-existing-id', mk(p), k)
                     wrong = {'tgt': '#3', 'tgt2': '#1'}.get(er[1])
                     if wrong:
                         p = list(base)
